@@ -114,7 +114,7 @@ def c09(run):
     run.judge(path, st, "hostile")
     path, st = run.child_trace(run.gen_histories("hostile-prims", 1), "hostile-prims")
     run.judge(path, st, "hostile-prims")
-    run.assumptions += ["totality of the Go decoders is sampled, not proved", "abort = the child process died under ulimit -v 1.5 GiB; hang = a call did not return within 2 s + 1 us/byte"]
+    run.assumptions += ["totality of the Go decoders is sampled, not proved", "abort = the child process died under ulimit -v 1.5 GiB; hang = a call did not return after 2 s + 1 us/byte of CPU time of its process (or 30x that in wall-clock time)"]
     return run.finish(RULE_HOSTILE)
 
 
